@@ -103,8 +103,11 @@ def _optimizer(T, mask, N, nested=None, run=None):
     else:
         cls = T.func(MO, "EnsembleOptimizer")
     opt = object.__new__(cls)
-    opt._enopt_config = types.SimpleNamespace(variables=types.SimpleNamespace(mask=None if mask is None else np.array(mask, dtype=bool)),
-                                              optimizer=types.SimpleNamespace(max_functions=None))
+    opt._enopt_config = types.SimpleNamespace(variables=types.SimpleNamespace(mask=None if mask is None else np.array(mask, dtype=bool),
+                                                                                initial_values=T.real("configured_initial_values", (N,)),
+                                                                                lower_bounds=T.const(np.full(N, -np.inf)), upper_bounds=T.const(np.full(N, np.inf)), types=None),
+                                              optimizer=types.SimpleNamespace(max_functions=None, method="x", parallel=False),
+                                              realizations=types.SimpleNamespace(realization_min_success=1))
     opt._completed_functions = 0
     opt._nested_optimizer = nested
     opt._signal_evaluation = None
